@@ -378,6 +378,28 @@ theorem asSessionAddress_of_toBytes (p : Parts) (h : p.WF) (s : Bytes)
   rw [show p.kind.byte :: (p.primary ++ p.tail) = p.toBytes from rfl, hp]
   simp [Except.map, sessionMetadataAddress, Parts.toBytes]
 
+/-- parts → address without loss: a session address is put together again from its parent scope
+address and its own session uuid — for EVERY session uuid (the all-zero one included) -/
+theorem session_rebuilt_from_parts (p : Parts) (h : p.WF) (hk : p.kind = .session) :
+    ∃ sc su, asScopeAddress p.toBytes = .ok sc ∧ sessionUUID p.toBytes = .ok su ∧
+      asSessionAddress sc su = .ok p.toBytes := by
+  have hpar : p.kind.parent? = some .scope := by simp [hk, Kind.parent?]
+  have h1 := (derived_parent_matches p h hpar).1
+  have h2 : sessionUUID p.toBytes = .ok p.tail := by
+    have hs := secondaryUUID_toBytes p h hk
+    rw [show p.toBytes = p.kind.byte :: (p.primary ++ p.tail) from rfl] at hs ⊢
+    simp only [sessionUUID, hk, ne_eq, not_true_eq_false, if_false]
+    rw [hk] at hs
+    exact hs
+  have hw : (⟨.scope, p.primary, []⟩ : Parts).WF := ⟨h.1, rfl⟩
+  have h3 := asSessionAddress_of_toBytes ⟨.scope, p.primary, []⟩ hw p.tail (Or.inl rfl)
+  refine ⟨_, _, h1, h2, ?_⟩
+  rw [h3]
+  obtain ⟨k, u, t⟩ := p
+  simp only at hk
+  subst hk
+  rfl
+
 /-- the record-spec address derived from a contract-spec address keeps the contract-spec uuid -/
 theorem asRecordSpecAddress_of_contractSpec (sha : String → Bytes) (u : Bytes) (name : String)
     (hu : u.length = 16) :
